@@ -243,16 +243,28 @@ theorem readonly_mode_option (tokens : List String) (h : sqliteClassify tokens =
   split at h
   · cases h
   · split at h
-    · rename_i hr
-      simpa using hr
+    · cases h
     · split at h
-      · cases h
+      · rename_i hr
+        simpa using hr
       · simp only at h
         split at h
         · cases h
         · split at h
           · cases h
           · split at h <;> cases h
+
+/-- an `-init` script is never approved, whatever else is on the line (`-readonly` does not hold its dot-commands back) -/
+theorem init_script_asks (tokens : List String)
+    (hh : tokens.any (fun t => Generated.Sql.sqliteHelp.contains t) = false)
+    (hi : "-init" ∈ optionWords 0 (tokens.drop 1)) :
+    (sqliteClassify tokens).allowed = false := by
+  have hc : (optionWords 0 (tokens.drop 1)).contains "-init" = true := by simpa using hi
+  unfold sqliteClassify
+  simp only [hh, hc, Bool.false_eq_true, ↓reduceIte]
+  rfl
+
+example : sqliteClassify ["sqlite3", "-readonly", "-init", "x.sql", "db"] = .initScript := by decide +kernel
 
 example : sqliteClassify ["sqlite3", "-separator", "-readonly", "db", "DELETE FROM t"] = .writeQuery := by decide +kernel
 example : sqliteClassify ["sqlite3", "-readonly", "db", "DELETE FROM t"] = .readonlyMode := by decide +kernel
